@@ -3,6 +3,8 @@ import NmfuModel.Explore
 import NmfuModel.Rt
 import NmfuModel.NoSpin
 import NmfuModel.Labels
+import NmfuModel.Cli
+import NmfuModel.Generated.Flags
 open Nmfu
 
 def splitBar (s : String) : List String := Id.run do
@@ -205,6 +207,35 @@ def cmdLabels (args : List String) : String :=
     | .error e => s!"error parse {e}"
   | _ => "error bad-args"
 
+def parseOv (s : String) : List (Nat × Bool) :=
+  (splitOn s ',').filterMap fun t =>
+    match splitOn t ':' with
+    | [k, v] => some (k.toNat!, v == "1")
+    | _ => none
+
+def fmtFlags (m : FlagMap) : String := " ".intercalate (m.map fun p => s!"{p.1}={if p.2 then 1 else 0}")
+
+/-- full-table resolution, plus whether its restriction to each cluster equals the cluster table's
+    own resolution of the options that belong to the cluster -/
+def cmdCli (args : List String) : String :=
+  match args with
+  | [lv, ovs] =>
+    let ov := parseOv ovs
+    let full := resolve Gen.flagTable Gen.optLevels lv.toNat! ov
+    let clusterOK := (Gen.clusterTables.all fun tbl =>
+      let ids := tbl.map (·.id)
+      let r := resolve tbl [] 0 (ov.filter fun p => ids.contains p.1)
+      match full, r with
+      | some fm, some cm => ids.all fun i => fm.get i == cm.get i
+      | none, _ => true
+      | some _, none => false) &&
+      (full.isSome || Gen.clusterTables.any fun tbl =>
+        (resolve tbl [] 0 (ov.filter fun p => (tbl.map (·.id)).contains p.1)).isNone)
+    match full with
+    | some m => s!"ok clusterProduct={clusterOK} {fmtFlags m}"
+    | none => s!"error clusterProduct={clusterOK}"
+  | _ => "error bad-args"
+
 def handle (line : String) : String :=
   match splitBar line with
   | "equiv" :: args => cmdEquiv args
@@ -213,6 +244,7 @@ def handle (line : String) : String :=
   | "wf" :: args => cmdWf args
   | "spin" :: args => cmdSpin args
   | "labels" :: args => cmdLabels args
+  | "cli" :: args => cmdCli args
   | "ping" :: _ => "pong"
   | _ => "error unknown-command"
 
